@@ -176,9 +176,18 @@ def run_one(ck, prog):
                     facts = panics.dominating_facts(ctx, bb)
                     sep = any(f[0] == "cmp" and f[1] == "Eq" and 47 in (fold(f[2]), fold(f[3])) for f in facts)
                     ok = sep
+                    # ... or the index an iterator search for '/' reported: rposition(|b| *b == b'/') over the string's bytes
+                    rp = [z for z in walk_deep(st[2], ctx.prov, limit=80) if z[0] == "call" and (z[1] or "").endswith("Iterator::rposition") and len(z[2]) == 2]
+                    for z in rp:
+                        clo = strip_casts(z[2][1])
+                        if isinstance(clo, tuple) and clo[0] == "agg" and isinstance(clo[2], str) and clo[2] in prog.fns:
+                            cc = prog.ctx(prog.fns[clo[2]])
+                            rets = [strip_casts(r) for r in cc.ret_expr().values()]
+                            if len(rets) == 1 and isinstance(rets[0], tuple) and rets[0][0] == "bin" and rets[0][1] == "Eq" and 47 in (fold(rets[0][2]), fold(rets[0][3])):
+                                ok = by_rposition = True
         ck.ob("C11.4", "file-name-starts-after-last-separator", ok, fn=pf["path"],
               detail="path_file_name must return the suffix starting at (index of the separator found scanning from the back) + 1")
-        revs = [bb for bb, t in ctx.cfg.calls(lambda t: (t.get("callee") or "").endswith("Iterator::rev"))]
+        revs = [bb for bb, t in ctx.cfg.calls(lambda t: (t.get("callee") or "").endswith(("Iterator::rev", "Iterator::rposition")))]
         ck.ob("C11.4", "file-name-scans-from-the-back", len(revs) == 1, fn=pf["path"], detail="the separator must be searched from the end (last separator)")
 
 
